@@ -69,9 +69,12 @@ def mk_table(spec):
 
 
 def shares_version(e1, e2):
-    if e1.kind == 'All' and e2.kind == 'All': return True
-    w = V('w')
-    return z3.Exists(w.terms(), z3.And(*w.wf(), zbool(e1.contains(w)), zbool(e2.contains(w))))
+    """two ranges share a version.  Quantifier-free: in a total order without a least element, two ranges of the four kinds
+    intersect iff one of their lower bounds lies in both (or neither has a lower bound).  C05 proves the same fact about
+    overlaps_with against the quantified definition; here the quantifier-free form keeps the queries decidable quickly."""
+    lows = [e.a for e in (e1, e2) if e.kind in ('From', 'FromUntil')]
+    if not lows: return True
+    return zor(*[zand(e1.contains(c), e2.contains(c)) for c in lows])
 
 
 def conflict_pair(e_old, e_new):
